@@ -33,6 +33,8 @@ def tasks(tier, seed):
             out.append({'kind': 'codes', 'prefix': [a, c], 'n': b['codes_len']})
     out.append({'kind': 'tok_short'})
     for a in range(len(TOKENS)):
+        out.append({'kind': 'tok_long', 'first': a})
+    for a in range(len(TOKENS)):
         for c in range(len(TOKENS)):
             out.append({'kind': 'tok', 'prefix': [a, c], 'n': b['tokens_len'], 'ns': b['ansistr_tokens_len']})
     return out
@@ -136,6 +138,18 @@ def run_task(task, acc):
             acc.sample({'raw': E + '[1mb' + E + '[' + params + 'ma', 'cls': 'AnsiString'})
         return
     T = TOKENS
+    if k == 'tok_long':
+        # the same token language behind 300 characters of plain text (change points at offsets > 256)
+        seqs = ((task['first'],) + t for n in range(0, 3) for t in itertools.product(range(len(T)), repeat=n))
+        for sq in seqs:
+            raw = 'a' * 300 + ''.join(T[i] for i in sq) + 'z'
+            acc.state_count += 1
+            acc.transitions += 1
+            acc.current = {'raw': raw, 'cls': 'AnsiString'}
+            amb, n = run_raw(raw, acc, ('AnsiString',))
+            if n:
+                acc.nontrivial_count += 1
+        return
     if k == 'tok_short':
         seqs = [()] + [(a,) for a in range(len(T))]
         ns = 9
